@@ -87,6 +87,8 @@ def inherent_mutations(rng, c):
     fams = {}
     for i, b in enumerate(c.blocks):
         fams.setdefault(b.self_ty, []).append(i)
+    if getattr(c, 'one_family', False):
+        fams = {'all': list(range(n))}       # nested members join the root's family by construction
     fam = '|'.join(','.join(map(str, v)) for v in fams.values())
 
     def render(blocks):
@@ -112,6 +114,29 @@ def inherent_mutations(rng, c):
         split = '|'.join([','.join(str(j) for j in map(int, g.split(',')) if j != i) for g in others if g != str(i)] + [str(i)])
         split = '|'.join(g for g in split.split('|') if g)
         yield ('trait_block@%d' % i, 'Expected inherent impl but found trait', render(mk((b, items, 'Other for ' + hdr))), split)
+
+
+def nested_inherent_bases(rng):
+    """inherent families with a member whose self type is an instance of the others' (`Wr<Vec<T>>`
+    under `Wr<T>`), with and without a bound on its own parameter that the family's header cannot
+    name (`T: Tr0`): the member belongs to the family, so a defect in it is diagnosed like in any other"""
+    out = []
+    for wrap, own in (('Vec<{T0}>', True), ('Option<{T0}>', False), ('Vec<{T0}>', False), ('Option<{T0}>', True)):
+        c = c17.ICase()
+        mk = lambda: gp.mk_slots(rng, ['T0'])
+        b0 = gp.Block(mk(), None, 'Wr<{T0}>', [('{T0}', 'D', {'G': 'GA'}, rng.choice(['inline', 'where']))], 'b0')
+        b1 = gp.Block(mk(), None, 'Wr<{T0}>', [('{T0}', 'D', {'G': 'GB'}, rng.choice(['inline', 'where']))], 'b1')
+        b2 = gp.Block(mk(), None, 'Wr<%s>' % wrap, [(wrap, 'D', {'G': 'GC'}, 'where')] + ([('{T0}', 'Tr0', {}, rng.choice(['inline', 'where']))] if own else []), 'b2')
+        c.blocks = [b0, b1, b2]
+        rng.shuffle(c.blocks)
+        for i, b in enumerate(c.blocks):
+            b.tag = 'b%d' % i
+        c.decl = 'pub struct Wr<T>(pub core::marker::PhantomData<T>);'
+        c.world = {('X0', 'D'): {'G': 'GA'}, ('X1', 'D'): {'G': 'GB'}, (wrap.format(T0='X0'), 'D'): {'G': 'GC'}, ('X0', 'Tr0'): {}}
+        c.probes = ['Wr<X0>']
+        c.one_family = True
+        out.append(c)
+    return out
 
 
 def program(kind, c, invocation):
@@ -151,6 +176,9 @@ def run(tier, seed, replay=None):
                 continue
             for label, msg, inv, fams in trait_mutations(rng, c):
                 jobs.append(('trait', c, label, msg, inv, fams))
+    for c in nested_inherent_bases(rng):
+        for label, msg, inv, fams in inherent_mutations(rng, c):
+            jobs.append(('inherent', c, 'nested:' + label, msg, inv, fams))
     progs = [program(k, c, inv) for (k, c, label, msg, inv, fams) in jobs]
     res = rc.compile_many(progs, run=False)
     hook = cm.run_hook(['items\t' + inv.replace('\n', ' ') for (_, _, _, _, inv, _) in jobs], exe_hook)
